@@ -217,6 +217,21 @@ def r2_r4(ctx, cfg):
         okn = len(sv) == 1 and contains(P.call_args(f, sv[0][1], sv[0][0])[3], lambda x: x[0] == "mutby" and x[1] == "cw_utils::NativeBalance::normalize")
         ctx.ob("C09.R4", key, "saved-balance-is-normalised", okn, "set_balance saves the coin list without NativeBalance::normalize()", fn=f,
                sample="balance.normalize() before BALANCES.save")
+    key = B + "init_balance"
+    f = ctx.need_fn("C09.R4", key)
+    if f is not None:
+        vals = [peel(v) for v in q.success_payloads(P, f)]
+        ok = bool(vals)
+        for v in vals:
+            if not (v[0] == "call" and v[1] == B + "set_balance"):
+                ok = False
+                continue
+            a = v[2]
+            st = peel(a[1])
+            ok = ok and st[0] == "call" and st[1] == "prefixed_storage::prefixed" and is_param(st[2][0], "storage") and peel(st[2][1]) == ("item", "bank::NAMESPACE_BANK") and \
+                is_param(a[2], "account") and is_param(a[3], "amount")
+        ctx.ob("C09.R4", key, "sets-the-given-balance-of-the-given-account", ok, "init_balance does not answer set_balance(bank view, account, amount)", fn=f,
+               sample="set_balance(prefixed(storage, NAMESPACE_BANK), account, amount)")
     key = B + "get_balance"
     f = ctx.need_fn("C09.R4", key)
     if f is not None:
